@@ -82,8 +82,7 @@ def token_scripts(tok):
 def jobs():
     toks = sorted((set(T.TOKENS) | set(parser_tokens())) - set(T.SPECIAL_TOKENS))
     out, none = [], []
-    for tok in toks:
-        sc_ = token_scripts(tok)
+    for tok, sc_ in zip(toks, parallel_map(token_scripts, toks)):
         if not sc_:
             none.append(tok)
         for name, text, ref_text, ops in sc_:
@@ -93,7 +92,7 @@ def jobs():
 
 def _job(job):
     tok, name, text, ref_text, ops = job
-    r = td._import_job((name, text, "accept", ref_text))
+    r = td._import_job((name, text, "accept", ref_text, False))
     return (tok, name, r["kind"], r["detail"], ops)
 
 
